@@ -9,6 +9,15 @@ the catalogue, compared with the real `--enable-all` report.
 Oracle (implementation, CLI, fresh processes): on refurb's own idiom corpus (test/data) plus the C04
 corpus, the report with only a subset S enabled must equal the `--enable-all` report filtered to S —
 for a random partition, singletons, complements and `--ignore` runs; same lines, same order.
+
+WHOLE RUN (second half of this file, `whole_run`): Model/Run.lean `runMain` = refurb.main.main() as ONE function (settings ->
+loaded checks -> raw diagnostics of the loaded checks -> file stamp -> noqa/amend filter -> sort -> format + hint -> exit status,
+with the settings-error / mypy-failure / load-error paths), Props/C10.lean `run_selection_is_filter`, `run_ignore_equals_never_loaded`,
+`run_exit_status`, `run_noqa_local`, `run_files_perm`.  Correspondence: the raw per-file diagnostics are taken ONCE from an
+instrumented all-checks run; then 162 (quick) / 2010 (thorough) REAL CLI runs on generated variations of a 10-file project are
+compared byte for byte (stdout + exit status) with the model's prediction (driver verb `run_main`).  Oracle: in every family of
+runs that differ only in their selection options, the run with fewer checks must print exactly the --enable-all run's lines of
+its loaded codes, in the same order.
 """
 
 from __future__ import annotations
@@ -161,6 +170,582 @@ def run(ctx) -> None:
         "Local(c) — a check's output on a node depends only on the tree and its own state — is a syntactic scan (ast) of the check modules: "
         "no mutable imports between check modules, no writes to nodes, `errors` only appended to; the three allow-listed exceptions are justified in Model/Visitor.lean",
         "refurb's test/data is the idiom corpus (every built-in check fires there)",
+    ]
+
+    whole_run(ctx)
+
+
+# ==========================================================================================================
+# WHOLE-RUN correspondence: Model/Run.lean `runMain` (settings -> loaded checks -> raw diagnostics of the loaded
+# checks -> file stamp -> noqa/amend filter -> sort -> format + hint -> exit status) against the real CLI,
+# byte for byte, on generated variations of a small multi-file project; plus the subset law applied directly
+# to pairs of real runs.
+
+# destination in the project  <-  source (relative to /repo/test or /verif/corpus), CRLF rewrite?
+RUN_POOL = [
+    ("a.py", "repo:data/err_123.py", False),
+    ("b.py", "repo:data/err_105.py", False),
+    ("pkg/b.py", "repo:data/err_116.py", False),
+    ("pkg/c.py", "repo:data/err_104.py", False),
+    ("pkg/sub/d.py", "repo:data/err_168.py", False),
+    ("other/b.py", "repo:data/err_141.py", False),
+    ("other/e.py", "repo:data/err_120.py", False),
+    ("other/crlf.py", "repo:data/err_176.py", True),
+    ("m1.py", "verif:C10/overlap.py", False),
+    ("ints.py", "text:x = 1\ny = [2, 3]  # two on one line\n\n\ndef f(a=4):\n    return a or 5\n", False),
+]
+# probe checks of the plugin `probe_run` (all fire on every integer literal):
+# (prefix, code, categories, enabled by default, messages appended per node — in this order)
+RUN_PROBES = [
+    ("XYZ", 100, (), True, ["probe"]),
+    ("FURB", 901, ("c1",), True, ["probe"]),
+    ("FURB", 902, ("c1", "c2"), True, ["probe"]),
+    ("FURB", 903, ("c2",), False, ["probe"]),
+    # same position, same code, different messages, appended in reverse alphabetical order: only a STABLE sort that
+    # does not look at the message keeps them in this order
+    ("ABC", 105, ("c2",), True, ["zz second look", "aa first look"]),
+]
+
+
+def run_plugin_sources() -> dict[str, str]:
+    files = {"probe_run/__init__.py": ""}
+    for pfx, code, cats, enabled, msgs in RUN_PROBES:
+        files[f"probe_run/k{pfx.lower()}{code}.py"] = (
+            "from dataclasses import dataclass\nfrom mypy.nodes import IntExpr\nfrom refurb.error import Error\n\n\n"
+            "@dataclass\nclass ErrorInfo(Error):\n"
+            f'    """probe"""\n    prefix = {pfx!r}\n    code = {code}\n    name = "probe-{pfx.lower()}{code}"\n'
+            f"    categories = {cats!r}\n    enabled = {enabled!r}\n    msg: str = \"probe\"\n\n\n"
+            "def check(node: IntExpr, errors: list[Error]) -> None:\n"
+            + "".join(f"    errors.append(ErrorInfo.from_node(node, {m!r}))\n" for m in msgs)
+        )
+    return files
+
+
+# runs inside the project directory, in a fresh interpreter: refurb's own pipeline with the two places that drop or move
+# diagnostics switched off (`should_ignore_error`, `sorted`), every check enabled, `--debug` for the tree dumps
+RUN_WORKER = r"""
+import json, sys
+import refurb.main as m
+from refurb.loader import get_error_class, get_modules
+
+jobs = json.loads(sys.stdin.read())
+m.should_ignore_error = lambda error, settings: False
+m.sorted = lambda xs, key=None: list(xs)
+out = []
+for job in jobs:
+    s = m.load_settings([*job["files"], "--enable-all", "--debug", "--load", "probe_run"])
+    res = m.run_refurb(s)
+    if job.get("expect_failure"):
+        out.append({"lines": [x for x in res if isinstance(x, str)], "all_text": all(isinstance(x, str) for x in res)})
+        continue
+    files, cur = [], None
+    for e in res:
+        if isinstance(e, str):
+            cur = {"dump": e, "raw": []}
+            files.append(cur)
+        else:
+            cur["path"] = e.filename
+            cur["raw"].append({"line": e.line, "col": e.column, "prefix": e.prefix, "code": e.code, "msg": e.msg, "line_end": e.line_end})
+    cat = []
+    for mod in get_modules(s.load):
+        err = get_error_class(mod)
+        if err:
+            cat.append({"module": mod.__name__, "prefix": err.prefix, "code": err.code, "categories": list(err.categories), "enabled": bool(err.enabled)})
+    out.append({"files": files, "catalogue": cat})
+print(json.dumps(out))
+"""
+
+
+def run_pool_sources() -> dict[str, bytes]:
+    out: dict[str, bytes] = {}
+    for dest, src, crlf in RUN_POOL:
+        kind, _, rest = src.partition(":")
+        if kind == "text":
+            text = rest
+        elif kind == "repo":
+            text = (core.REPO / "test" / rest).read_text()
+        else:
+            text = (core.VERIF / "corpus" / rest).read_text()
+        data = text.encode()
+        if crlf:
+            data = data.replace(b"\r\n", b"\n").replace(b"\n", b"\r\n")
+        out[dest] = data
+    return out
+
+
+def run_write_tree(root: Path, files: dict[str, Any]) -> None:
+    for rel, data in files.items():
+        p = root / rel
+        p.parent.mkdir(parents=True, exist_ok=True)
+        if isinstance(data, bytes):
+            p.write_bytes(data)
+        else:
+            p.write_text(data)
+
+
+def run_safe_lines(text: str) -> list[int]:
+    """physical lines (1-based) at whose end a comment can be appended without changing the program: the line ends a
+    logical line or is a blank/comment line (never inside a multi-line string or before a backslash continuation)"""
+    import io
+    import tokenize
+
+    ok = set()
+    try:
+        for tok in tokenize.generate_tokens(io.StringIO(text, newline="").readline):
+            if tok.type in (tokenize.NEWLINE, tokenize.NL) and tok.start[0] == tok.end[0]:
+                ok.add(tok.start[0])
+    except (tokenize.TokenError, IndentationError, SyntaxError):
+        return []
+    n = len(text.split("\n"))
+    return sorted(l for l in ok if l <= n)
+
+
+NOQA_KINDS = ["bare", "bare-trailing", "tab-bare", "hit", "miss", "multi-hit", "multi-miss", "nospace", "upper", "quoted", "after-comment", "comma-space"]
+
+
+def run_comment(kind: str, code_here: str | None, rng) -> str:
+    c = code_here or "FURB123"
+    return {
+        "bare": "  # noqa",
+        "bare-trailing": "  # noqa   ",
+        "tab-bare": "\t# noqa",
+        "hit": f"  # noqa: {c}",
+        "miss": "  # noqa: FURB999",
+        "multi-hit": rng.choice([f"  # noqa: FURB999,{c}", f"  # noqa: {c} XYZ100", f"  # noqa: XYZ100, {c},FURB998"]),
+        "multi-miss": "  # noqa: FURB999, XYZ999",
+        "nospace": f"  # noqa:{c}",
+        "upper": "  # NOQA",
+        "quoted": f"  # noqa: {c} 'why'",
+        "after-comment": "  # see below  # noqa",
+        "comma-space": f"  # noqa: FURB999 , {c}",
+    }[kind]
+
+
+def run_apply_comments(data: bytes, comments: dict[int, str]) -> bytes:
+    lines = data.decode().split("\n")
+    for ln, text in comments.items():
+        l = lines[ln - 1]
+        if l.endswith("\r"):
+            lines[ln - 1] = l[:-1] + text + "\r"
+        else:
+            lines[ln - 1] = l + text
+    return "\n".join(lines).encode()
+
+
+def run_toml(cfg: dict[str, Any], amend: list[dict[str, Any]]) -> str:
+    import json as _json
+
+    lines = ["[tool.refurb]"]
+    for k, v in cfg.items():
+        lines.append(f"{k} = {'true' if v is True else 'false' if v is False else _json.dumps(v)}")
+    for a in amend:
+        lines += ["", "[[tool.refurb.amend]]", f"path = {_json.dumps(a['path'])}", f"ignore = {_json.dumps(a['ignore'])}"]
+    return "\n".join(lines) + "\n"
+
+
+def run_sel_options(rng, names: list[str], n: int) -> list[tuple[str, Any]]:
+    opts: list[tuple[str, Any]] = []
+    for _ in range(n):
+        r = rng.random()
+        if r < 0.10:
+            opts.append(("enable_all", None))
+        elif r < 0.22:
+            opts.append(("disable_all", None))
+        else:
+            kind = rng.choice(["enable", "enable", "disable", "disable", "ignore"])
+            opts.append((kind, [rng.choice(names) for _ in range(rng.choice([1, 1, 1, 2, 3]))]))
+    return opts
+
+
+def run_cfg_spelling(n: str) -> Any:
+    # a FURB code may be written as a bare TOML integer in the config file
+    return int(n[4:]) if n.startswith("FURB") and len(n) == 7 and n[4:].isdigit() and int(n[4:]) >= 100 and int(n[4:]) % 3 == 0 else n
+
+
+def run_base(rng, pool: dict[str, bytes], rawinfo: dict[str, Any], names: list[str], idx: int, must_include: str | None, debug: bool, need_plugin: bool, fires_in: dict[str, list[str]]) -> dict[str, Any]:
+    """everything about a run EXCEPT the selection options"""
+    paths = list(pool)
+    k = rng.choice([1, 2, 2, 3, 3, 4, 5, 6, len(paths)])
+    files = rng.sample(paths, min(k, len(paths)))
+    if "ints.py" not in files and rng.random() < 0.5:
+        files.insert(rng.randrange(len(files) + 1), "ints.py")
+    if must_include and must_include not in files:
+        files.insert(rng.randrange(len(files) + 1), must_include)
+    spell = {f: ("./" + f if rng.random() < 0.12 else f) for f in files}
+    comments: dict[str, dict[int, str]] = {}
+    kinds_used: list[str] = []
+    for f in files:
+        if rng.random() < 0.55:
+            text = pool[f].decode()
+            safe = run_safe_lines(text)
+            diag_lines: dict[int, list[str]] = {}
+            end_lines: dict[int, list[str]] = {}  # last line of a diagnosed node that spans several lines (not itself diagnosed)
+            for r in rawinfo[f]["raw"]:
+                diag_lines.setdefault(r["line"], []).append(f"{r['prefix']}{r['code']}")
+            for r in rawinfo[f]["raw"]:
+                le = r.get("line_end")
+                if le and le != r["line"] and le not in diag_lines:
+                    end_lines.setdefault(le, []).append(f"{r['prefix']}{r['code']}")
+            cm: dict[int, str] = {}
+            for _ in range(rng.choice([1, 1, 2, 3, 5])):
+                on_diag = [l for l in safe if l in diag_lines]
+                on_end = [l for l in safe if l in end_lines]
+                off_diag = [l for l in safe if l not in diag_lines and l not in end_lines]
+                r0 = rng.random()
+                if on_end and r0 < 0.2:
+                    ln, where = rng.choice(on_end), "end:"
+                elif on_diag and (r0 < 0.75 or not off_diag):
+                    ln, where = rng.choice(on_diag), "on:"
+                elif off_diag:
+                    ln, where = rng.choice(off_diag), "off:"
+                else:
+                    continue
+                if ln in cm:
+                    continue
+                kind = rng.choice(NOQA_KINDS if where != "end:" else ["bare", "hit", "multi-hit", "tab-bare"])
+                here = rng.choice(diag_lines[ln]) if ln in diag_lines else rng.choice(end_lines[ln]) if ln in end_lines else None
+                cm[ln] = run_comment(kind, here, rng)
+                kinds_used.append(where + kind)
+            if cm:
+                comments[f] = cm
+    conf_dir = rng.random() < 0.25
+    amend: list[dict[str, Any]] = []
+    if rng.random() < 0.45:
+        up = "../" if conf_dir else ""
+        for _ in range(rng.choice([1, 1, 2, 3])):
+            path = rng.choice(["pkg", "pkg/", "./pkg", "pkg/sub", "pkg/b.py", "other", "oth", ".", "nonexistent", "pkg/../other", "other/e.py", "a.py", "ABS:pkg", "ABS:"])
+            # mostly name what fires below the path (or below its look-alike sibling), so that the table matters
+            target = {"pkg": "pkg/", "pkg/": "pkg/", "./pkg": "pkg/", "pkg/sub": "pkg/sub/", "pkg/b.py": "pkg/b.py", "other": "other/", "oth": "other/",
+                      "pkg/../other": "other/", "other/e.py": "other/e.py", "a.py": "a.py", "ABS:pkg": "pkg/"}.get(path, "")
+            local = sorted(n for n, fs in fires_in.items() if any(f.startswith(target) and f in files for f in fs))
+            if not path.startswith("ABS:"):  # "ABS:x" is made absolute once the run directory is known
+                path = ".." if (path == "." and up) else up + path
+            pick = [rng.choice(local) if local and rng.random() < 0.75 else rng.choice(names) for _ in range(rng.choice([1, 2, 3]))]
+            amend.append({"path": path, "ignore": [run_cfg_spelling(x) for x in dict.fromkeys(pick)]})
+    rep = {
+        "sort": rng.choice([None, None, "filename", "error", "error"]),
+        "sort_where": rng.choice(["cli", "cfg", "both"]),
+        "format": rng.choice([None, None, "text", "github", "github"]),
+        "format_where": rng.choice(["cli", "cfg", "both"]),
+        "quiet": None if debug else rng.choice([None, None, None, "cli", "cfg"]),
+        "debug": debug or rng.random() < 0.03,
+        "load": rng.choice(["cli", "cfg"]) if need_plugin else rng.choice(["cli", "cli", "cfg", "cfg", None]),
+    }
+    return {"idx": idx, "files": files, "spell": spell, "comments": comments, "noqa_kinds": kinds_used, "amend": amend, "conf_dir": conf_dir, "rep": rep}
+
+
+def run_member(rng, base: dict[str, Any], sel: list[tuple[str, Any]], verbose: bool, failure: str | None, tag: str) -> dict[str, Any]:
+    """one run: the base + selection options split between config file and command line"""
+    rep = base["rep"]
+    cut = rng.randint(0, len(sel))
+    cfg_sel, cli_sel = (sel[:cut], sel[cut:]) if rng.random() < 0.8 else ([], sel)
+    cfg: dict[str, Any] = {}
+    for k, v in cfg_sel:
+        if v is None:
+            cfg[k] = True
+        else:
+            cfg.setdefault(k, [])
+            cfg[k] += [run_cfg_spelling(x) for x in v if run_cfg_spelling(x) not in cfg[k]]
+    groups: list[list[str]] = []
+    for k, v in cli_sel:
+        groups.append(["--" + k.replace("_", "-")] if v is None else ["--" + k, ",".join(v)])
+    if rep["sort"]:
+        if rep["sort_where"] in ("cfg", "both"):
+            cfg["sort_by"] = rep["sort"] if rep["sort_where"] == "cfg" else ("filename" if rep["sort"] == "error" else "error")
+        if rep["sort_where"] in ("cli", "both"):
+            groups.append(["--sort", rep["sort"]])
+    if rep["format"]:
+        if rep["format_where"] in ("cfg", "both"):
+            cfg["format"] = rep["format"] if rep["format_where"] == "cfg" else ("text" if rep["format"] == "github" else "github")
+        if rep["format_where"] in ("cli", "both"):
+            groups.append(["--format", rep["format"]])
+    if rep["quiet"] == "cli":
+        groups.append(["--quiet"])
+    elif rep["quiet"] == "cfg":
+        cfg["quiet"] = True
+    if rep["debug"]:
+        groups.append(["--debug"])
+    if verbose:
+        groups.append(["--verbose"])
+    if rep["load"] == "cli":
+        groups.append(["--load", "probe_run"])
+    elif rep["load"] == "cfg":
+        cfg["load"] = ["probe_run"]
+    files = [base["spell"][f] for f in base["files"]]
+    if failure == "missing-file":
+        files.insert(rng.randrange(len(files) + 1), "nope.py")
+    elif failure == "syntax":
+        files.insert(rng.randrange(len(files) + 1), "bad.py")
+    elif failure == "load-error":
+        groups.append(["--load", "no_such_plugin_xyz"])
+    elif failure == "bad-option":
+        groups.append([rng.choice(["--bogus", "--enable", "--sort"])] if rng.random() < 0.5 else rng.choice([["--enable", "FURB1"], ["--format", "xml"], ["--sort", "line"], ["--ignore", "furb123"], ["--python-version", "3"]]))
+    elif failure == "bad-config":
+        cfg[rng.choice(["colour", "enable_al"])] = True
+    # the options keep their relative order; the file arguments are dropped in between at random positions
+    slots: list[list[str]] = [[] for _ in range(len(groups) + 1)]
+    if failure == "bad-option" and groups and len(groups[-1]) == 1 and groups[-1][0] in ("--enable", "--sort"):
+        # an option that lacks its value must stay last
+        for f in files:
+            slots[rng.randrange(len(groups))].append(f)
+    else:
+        for f in files:
+            slots[rng.randrange(len(groups) + 1)].append(f)
+    argv: list[str] = []
+    for i, g in enumerate(groups):
+        argv += slots[i] + g
+    argv += slots[len(groups)]
+    has_cfg = bool(cfg or base["amend"]) or rng.random() < 0.7
+    cfg_path = "conf/refurb.toml" if base["conf_dir"] else "pyproject.toml"
+    if base["conf_dir"]:
+        argv += ["--config-file", cfg_path]
+        has_cfg = True
+    if failure == "missing-config":
+        argv += ["--config-file", "conf/none.toml"]
+        cfg_path = "conf/none.toml"
+        has_cfg = False
+    return {"base": base, "tag": tag, "argv": argv, "cfg": cfg, "has_cfg": has_cfg, "cfg_path": cfg_path, "verbose": verbose, "failure": failure,
+            "loaded_plugin": rep["load"] is not None, "sel": sel}
+
+
+def run_materialise(root: Path, m: dict[str, Any], pool: dict[str, bytes]) -> dict[str, Any]:
+    """write the run's directory; returns the file texts as written (for the model and for the replay)"""
+    base = m["base"]
+    tree: dict[str, Any] = dict(run_plugin_sources())
+    written: dict[str, bytes] = {}
+    for f in base["files"]:
+        data = run_apply_comments(pool[f], base["comments"].get(f, {}))
+        tree[f] = data
+        written[f] = data
+    if m["failure"] == "syntax":
+        tree["bad.py"] = "x = (\n"
+    amend = [{"path": (str(root / a["path"][4:]) if a["path"].startswith("ABS:") else a["path"]), "ignore": a["ignore"]} for a in base["amend"]]
+    cfg_text = run_toml(m["cfg"], amend) if m["has_cfg"] else None
+    if cfg_text is not None:
+        tree[m["cfg_path"]] = cfg_text
+    run_write_tree(root, tree)
+    return {"written": written, "cfg_text": cfg_text}
+
+
+GITHUB_RE = __import__("re").compile(r"^::error line=(-?\d+),col=(-?\d+),title=Refurb ([A-Z]{3,4}\d+),file=(.*?)::")
+
+
+def run_diag_lines(stdout: str) -> list[tuple[str, str]]:
+    """(code, whole line) of every diagnostic line of a real report, in order (plain or github format)"""
+    out = []
+    for line in stdout.split("\n"):
+        mm = core.DIAG_RE.match(line)
+        if mm:
+            out.append((f"{mm['prefix']}{mm['code']}", line))
+            continue
+        g = GITHUB_RE.match(line)
+        if g:
+            out.append((g.group(3), line))
+    return out
+
+
+def whole_run(ctx) -> None:
+    import json as _json
+    import os
+    import subprocess
+
+    from .. import settings_io
+
+    res = ctx.res
+    rng = ctx.rng("c10-run")
+    if not ctx.driver.available():
+        return
+    pool = run_pool_sources()
+    nfam = 54 if ctx.quick else 670
+    with core.scratch("rv-c10run-") as d0:
+        d = Path(os.path.realpath(d0))
+        # ---- the raw per-file diagnostics, ONCE: instrumented in-process run, every check enabled, nothing ignored/sorted
+        proj = d / "raw"
+        run_write_tree(proj, {**run_plugin_sources(), **pool, "bad.py": "x = (\n", "pyproject.toml": ""})
+        jobs = [{"files": list(pool)}, {"files": ["b.py", "nope.py"], "expect_failure": True}, {"files": ["b.py", "bad.py"], "expect_failure": True}]
+        p = subprocess.run([core.PY, "-c", RUN_WORKER], cwd=proj, input=_json.dumps(jobs), capture_output=True, text=True, env=core.py_env(), timeout=600)
+        if p.returncode != 0:
+            res.disagree("run_main", {"stage": "raw-diagnostics worker"}, None, p.stderr[-1500:])
+            return
+        wout = _json.loads([l for l in p.stdout.split("\n") if l.strip()][-1])
+        if len(wout[0]["files"]) != len(pool) or any(e.get("path", f) != f for f, e in zip(pool, wout[0]["files"])):
+            res.disagree("run_main", {"stage": "raw-diagnostics worker"}, None, "the instrumented run did not return one block per file, in order")
+            return
+        rawinfo = {f: {"raw": e["raw"], "dump": e["dump"]} for f, e in zip(pool, wout[0]["files"])}
+        catalogue = wout[0]["catalogue"]
+        builtin_cat = [c for c in catalogue if not c["module"].startswith("probe_run")]
+        fail_lines = {"missing-file": wout[1], "syntax": wout[2]}
+        keys = [(c["prefix"], c["code"]) for c in catalogue]
+        if len(set(keys)) != len(keys):
+            res.notes.append("whole-run: two check modules share prefix+code; the model identifies a diagnostic's class by prefix+code")
+        res.bump("run:raw_diagnostics", sum(len(f["raw"]) for f in rawinfo.values()))
+        res.bump("run:catalogue", len(catalogue))
+        fired = sorted({f"{r['prefix']}{r['code']}" for f in rawinfo.values() for r in f["raw"]})
+        cats = sorted({"#" + c for row in catalogue if f"{row['prefix']}{row['code']}" in fired for c in row["categories"]})
+        names = sorted(set(fired + cats + [f"{p}{c}" for p, c, _, _, _ in RUN_PROBES] + ["#c1", "#c2", "FURB100", "FURB999", "#nosuch"]))
+
+        # ---- the variations: families of runs that differ ONLY in the selection options
+        # where each code / category fires (to make a systematic option matter in its family)
+        fires_in: dict[str, list[str]] = {}
+        cats_of = {f"{row['prefix']}{row['code']}": ["#" + c for c in row["categories"]] for row in catalogue}
+        for f, info in rawinfo.items():
+            for r in info["raw"]:
+                code = f"{r['prefix']}{r['code']}"
+                for nm in [code, *cats_of.get(code, [])]:
+                    if f not in fires_in.setdefault(nm, []):
+                        fires_in[nm].append(f)
+        # the probe checks first: five checks on one node are where interference between checks shows
+        first = ["#c1", "#c2", "FURB901", "ABC105", "XYZ100"]
+        cycle = first + [n for n in cats + fired if n not in first]
+        for nm in first:
+            fires_in.setdefault(nm, ["ints.py"])
+        failures = ["missing-file", "syntax", "load-error", "bad-option", "bad-config", "missing-config"]
+        members: list[dict[str, Any]] = []
+        for fam in range(nfam):
+            # sub0 is SYSTEMATIC: one ignore / disable / enable of each category and code in turn (categories first)
+            kind = ["ignore", "disable", "enable"][fam % 3]
+            name = cycle[(fam // 3) % len(cycle)]
+            sys_sel: list[tuple[str, Any]] = [(kind, [name])]
+            if kind == "enable":
+                sys_sel.insert(0, ("disable_all", None))
+            elif rng.random() < 0.5:
+                sys_sel.insert(0, ("enable_all", None))
+            probe_names = {f"{p}{c}" for p, c, _, _, _ in RUN_PROBES} | {"#" + c for _, _, cs, _, _ in RUN_PROBES for c in cs}
+            base = run_base(rng, pool, rawinfo, names, fam, rng.choice(fires_in.get(name, [None])), debug=fam % 9 == 4, need_plugin=name in probe_names, fires_in=fires_in)
+            fail = failures[(fam // 9) % len(failures)] if fam % 9 == 8 else None
+            verbose_fam = rng.random() < 0.5
+            members.append(run_member(rng, base, [("enable_all", None)], verbose_fam, fail, "full"))
+            members.append(run_member(rng, base, sys_sel, verbose_fam and rng.random() < 0.8, fail, "sub0"))
+            sel = run_sel_options(rng, names, rng.choice([1, 1, 2, 2, 3, 4]))
+            members.append(run_member(rng, base, sel, verbose_fam and rng.random() < 0.8, fail, "sub1"))
+
+        def real(k: int) -> tuple[int, str, str, dict[str, Any]]:
+            m = members[k]
+            root = d / f"r{k}"
+            mat = run_materialise(root, m, pool)
+            rc, out, err = core.refurb_cli(m["argv"], cwd=root, timeout=600)
+            return rc, out, err, mat
+
+        import time as _time
+
+        _t0 = _time.time()
+        with ThreadPoolExecutor(16) as ex:
+            reals = list(ex.map(real, range(len(members))))
+        res.distribution["run:real_runs_wall_s"] = round(_time.time() - _t0, 1)
+
+        # ---- the model's prediction for each run, from the raw diagnostics
+        reqs = []
+        for k, (m, (rc, out, err, mat)) in enumerate(zip(members, reals)):
+            base = m["base"]
+            root = d / f"r{k}"
+            cat = catalogue if m["loaded_plugin"] else builtin_cat
+            if m["failure"] in ("missing-file", "syntax"):
+                mypy = {"r": "failed", "lines": fail_lines[m["failure"]]["lines"]}
+            else:
+                mypy = {"r": "built", "files": [
+                    {"path": f, "rel": f, "source": mat["written"][f].decode(), "dump": rawinfo[f]["dump"] if base["rep"]["debug"] else "",
+                     "raw": rawinfo[f]["raw"]} for f in base["files"]]}
+            req = {"verb": "run_main", "env_color": False, "args": m["argv"], "file": settings_io.file_outcome(root / m["cfg_path"]),
+                   "checks": cat, "mypy": mypy, "cwd": [x for x in str(root).split("/") if x], "links": [], "fuel": 64}
+            if m["failure"] == "load-error":
+                req["load_error"] = "No module named 'no_such_plugin_xyz'"
+            reqs.append(req)
+        _t0 = _time.time()
+        nchunk = 8
+        chunks = [reqs[c::nchunk] for c in range(nchunk)]
+        with ThreadPoolExecutor(nchunk) as ex:
+            parts = list(ex.map(lambda c: ctx.driver.batch(c, timeout=1200), chunks))
+        answers = [None] * len(reqs)
+        for c, part in enumerate(parts):
+            answers[c::nchunk] = part
+        res.distribution["run:model_wall_s"] = round(_time.time() - _t0, 1)
+
+    def replay_of(k: int) -> dict[str, Any]:
+        m, (rc, out, err, mat) = members[k], reals[k]
+        return {"files": {f: mat["written"][f].decode() for f in m["base"]["files"]}, "config_file": m["cfg_path"], "config_text": mat["cfg_text"], "argv": m["argv"],
+                "plugin": "harness/props/c10.py:run_plugin_sources() written next to the files", "how": "write the files, the config file and the probe_run plugin into an empty directory; run python -m refurb ARGV there"}
+
+    for k, (m, (rc, out, err, mat), ans) in enumerate(zip(members, reals, answers)):
+        base = m["base"]
+        res.case(("run", tuple(m["argv"]), mat["cfg_text"], tuple(sorted((f, tuple(sorted(c.items()))) for f, c in base["comments"].items()))), nontrivial=bool(out))
+        res.bump("run:real_runs")
+        res.bump(f"run:files={min(len(base['files']), 7)}")
+        res.bump("run:format=" + (base["rep"]["format"] or "default"))
+        res.bump("run:sort=" + (base["rep"]["sort"] or "default"))
+        res.bump("run:exit=%d" % rc)
+        for kd in base["noqa_kinds"]:
+            res.bump("run:noqa:" + kd)
+        if not base["noqa_kinds"]:
+            res.bump("run:noqa:none")
+        if base["amend"]:
+            res.bump("run:amend_tables")
+        if m["failure"]:
+            res.bump("run:failure:" + m["failure"])
+        for kind, _ in m["sel"]:
+            res.bump("run:opt:" + kind)
+        if not m["sel"]:
+            res.bump("run:opt:none")
+        if m["verbose"]:
+            res.bump("run:verbose")
+        if base["rep"]["debug"]:
+            res.bump("run:debug")
+        if err.strip():
+            res.violate("refurb wrote to stderr during a whole-run variation", {"kind": "run-stderr", "tail": err.strip().split("\n")[-1][:120]}, {**replay_of(k), "stderr": err[-1500:]})
+            continue
+        if ans.get("stdout") != out or ans.get("exit") != rc:
+            mo = ans.get("stdout", "")
+            i = next((j for j, (a, b) in enumerate(zip(mo, out)) if a != b), min(len(mo), len(out)))
+            res.disagree("run_main", replay_of(k), {"exit": ans.get("exit"), "kind": ans.get("kind"), "stdout_from_first_difference": mo[max(0, i - 80) : i + 200], "stdout_len": len(mo)},
+                         {"exit": rc, "stdout_from_first_difference": out[max(0, i - 80) : i + 200], "stdout_len": len(out)})
+    if members:
+        k = next((j for j, m in enumerate(members) if m["tag"] != "full" and reals[j][1] and m["base"]["comments"]), 0)
+        res.sample({"whole_run": {"argv": members[k]["argv"], "config": reals[k][3]["cfg_text"], "comments": members[k]["base"]["comments"], "exit": reals[k][0],
+                                  "stdout_head": reals[k][1][:300], "model_agrees": answers[k].get("stdout") == reals[k][1]}})
+
+    # ---- the subset law on the REAL runs of each family: a run with fewer checks prints exactly the full run's lines of its codes
+    for fam in range(nfam):
+        ks = [fam * 3, fam * 3 + 1, fam * 3 + 2]
+        full = reals[ks[0]]
+        if members[ks[0]]["failure"] or members[ks[0]]["base"]["rep"]["debug"] or full[2].strip():
+            continue
+        full_lines = run_diag_lines(full[1])
+        for k in ks[1:]:
+            rc, out, err, mat = reals[k]
+            if err.strip() or (rc == 1 and out.startswith("refurb: ")):
+                continue
+            sub_lines = run_diag_lines(out)
+            listed = None
+            if members[k]["verbose"] and out.startswith("Enabled checks: "):
+                first = out.split("\n", 1)[0][len("Enabled checks: "):]
+                listed = set() if first == "No checks enabled" else set(first.split(", "))
+            codes = listed if listed is not None else {c for c, _ in sub_lines}
+            want = [l for l in full_lines if l[0] in codes]
+            res.bump("run:oracle_pairs")
+            if listed is not None:
+                res.bump("run:oracle_pairs_with_listing")
+            if sub_lines != want:
+                missing = [l for l in want if l not in sub_lines][:3]
+                extra = [l for l in sub_lines if l not in want][:3]
+                res.violate(
+                    "whole run: a run that differs from an --enable-all run only in its selection options does not print exactly the --enable-all run's "
+                    f"lines of its loaded codes ({'order only' if not missing and not extra else f'missing {len(missing)}+, extra {len(extra)}+'})",
+                    {"kind": "run-selection-differs", "mode": "order" if not missing and not extra else "content", "codes": sorted({l[0] for l in missing + extra})[:4]},
+                    {"subset_run": replay_of(k), "full_run_argv": members[ks[0]]["argv"], "full_run_config": full[3]["cfg_text"], "missing_from_subset_run": missing,
+                     "only_in_subset_run": extra, "subset_stdout": out[:1500], "full_stdout": full[1][:1500]},
+                )
+    res.rule += (
+        "; WHOLE RUN: families of 3 real CLI runs (one --enable-all; one with ONE ignore/disable/enable of each category and each firing code in turn; one with "
+        "1-4 random enable/disable/ignore/enable-all/disable-all options; options split between config file and argv) over a random ordered subset of a 10-file project (sub-directories, same-named files, a CRLF file, a file of integer literals "
+        "for the 5-check probe plugin), with random --sort/--format/--quiet/--verbose/--debug (argv, config or contradicting both), `# noqa` comments of 12 "
+        "shapes appended to diagnosed and undiagnosed lines, amend tables (relative, absolute, dotted, sibling-prefix, missing paths), pyproject.toml or "
+        "--config-file in a sub-directory, and a few failing runs (missing file, syntax error, bad option/config, unknown plugin); a case = one run, "
+        "non-trivial = it printed something; each run's stdout and exit status are compared byte for byte with Model/Run.lean runMain fed the raw "
+        "diagnostics of ONE instrumented all-checks run"
+    )
+    res.assumptions += [
+        "whole-run model: mypy's part (which files are built, in which order; failure lines) and the raw diagnostics of every check are inputs, taken once from an "
+        "instrumented in-process run (should_ignore_error and sorted switched off, --enable-all --debug); that a run with fewer checks produces exactly the raw "
+        "diagnostics of the loaded checks is Props/C10 visitAll_select + the subset oracle on real runs",
     ]
 
 
